@@ -741,34 +741,7 @@ func (c *Ctx) checkFraming(encs []encEntry) {
 			c.R.Undecided("R9.5", key, pos, "length prefix is not a sum of protowire.Size* terms under Exists() conditions")
 			continue
 		}
-		var got []sizeAlt
-		complete := core.EnumPaths(nested, 2, 100000, func(path []*ssa.BasicBlock) {
-			a := sizeAlt{conds: map[string]bool{}}
-			for i, b := range path {
-				for _, ins := range b.Instrs {
-					call, ok := ins.(*ssa.Call)
-					if !ok {
-						continue
-					}
-					nm := pwName(call)
-					if nm == "AppendTag" {
-						if k, ok := core.ConstInt(call.Call.Args[1]); ok {
-							a.terms = append(a.terms, fmt.Sprintf("tag:%d", k))
-						}
-					} else if t, ok := appendTerm[nm]; ok {
-						a.terms = append(a.terms, t)
-					}
-				}
-				if i+1 < len(path) {
-					if cond, taken, ok := core.BranchTaken(b, path[i+1]); ok {
-						if nmc := c.existsCond(cond); nmc != "" {
-							a.conds[nmc] = taken
-						}
-					}
-				}
-			}
-			got = append(got, a)
-		})
+		got, complete := c.writeAlts(nested, 0)
 		if !complete {
 			c.R.Undecided("R9.5", key, pos, "nested encoder path enumeration exceeded its bound")
 			continue
@@ -886,7 +859,8 @@ func (c *Ctx) checkPermissions() {
 		}
 		r.Check(len(bad) == 0, "R9.6", key, pos, "returns Mode&0xFFF when present, else the default table", strings.Join(bad, "; "))
 	}
-	// (b) builder side: every MapEntry(_, "Mode", qp.Int(x)) in data/builder has x = … & 0xFFF
+	// (b) builder side: every MapEntry(_, "Mode", qp.Int(x)) in data/builder has x = … & 0xFFF. The key and the value may
+	// reach the MapEntry through parameters of setter helpers: they are then resolved at every call site of the helper.
 	for _, fn := range c.P.RepoFuncs {
 		rel, ok := c.P.PkgOf(fn)
 		if !ok || rel != "data/builder" {
@@ -897,48 +871,22 @@ func (c *Ctx) checkPermissions() {
 			if !ok || !core.IsCallTo(call, qpPath, "MapEntry") {
 				continue
 			}
-			k, ok := call.Call.Args[1].(*ssa.Const)
-			if !ok || k.Value == nil || k.Value.Kind() != constant.String || constant.StringVal(k.Value) != "Mode" {
+			ic, ok := call.Call.Args[2].(*ssa.Call)
+			if !ok || len(ic.Call.Args) != 1 {
+				if k, isC := call.Call.Args[1].(*ssa.Const); isC && k.Value != nil && k.Value.Kind() == constant.String && constant.StringVal(k.Value) == "Mode" {
+					r.Violate("R9.6", "data/builder."+fn.Name()+"/sets-Mode", c.P.Pos(call.Pos()), "mode stored through an unrecognised value constructor")
+				}
 				continue
 			}
-			key := "data/builder." + fn.Name() + "/sets-Mode"
-			pos := c.P.Pos(call.Pos())
-			okMask := false
-			if ic, ok := call.Call.Args[2].(*ssa.Call); ok && len(ic.Call.Args) == 1 {
-				if _, m, ok := andMask(ic.Call.Args[0]); ok {
-					nmask++
-					okMask = m == 0xFFF
-				} else if p, isParam := core.Unconv(ic.Call.Args[0]).(*ssa.Parameter); isParam {
-					// a setter helper: every call site must pass a masked value
-					idx := -1
-					for i, q := range fn.Params {
-						if q == p {
-							idx = i
-						}
-					}
-					ncs := 0
-					okMask = idx >= 0
-					for _, e := range c.G.In[fn] {
-						cs, isCall := e.Site.(*ssa.Call)
-						if !isCall || cs.Call.StaticCallee() != fn {
-							continue
-						}
-						ncs++
-						if _, m, ok := andMask(cs.Call.Args[idx]); !ok || m != 0xFFF {
-							okMask = false
-						} else {
-							nmask++
-						}
-					}
-					if ncs == 0 {
-						okMask = false
-					}
-				}
+			relevant, okMask, nm := c.modeMaskOK(fn, call.Call.Args[1], ic.Call.Args[0], false, 0)
+			if !relevant {
+				continue
 			}
-			r.Check(okMask, "R9.6", key, pos, "mode masked with 0xFFF before it is stored", "mode stored without & 0xFFF")
+			nmask += nm
+			r.Check(okMask, "R9.6", "data/builder."+fn.Name()+"/sets-Mode", c.P.Pos(call.Pos()), "mode masked with 0xFFF before it is stored", "mode stored without & 0xFFF")
 		}
 	}
-	r.Floor("R9.6/mask", nmask, 3)
+	r.Floor("R9.6/mask", nmask, 2)
 	// (c) default table
 	if defFn == nil {
 		r.Violate("R9.6", "data/default-permissions", "-", "no default-permission function is reachable from Permissions()")
@@ -967,6 +915,20 @@ func (c *Ctx) checkPermissions() {
 			deflt = &vv
 		}
 	}
+	if len(table) == 0 {
+		// table-driven form: return tbl[DataType] with tbl a package-level map that only init writes
+		for _, ret := range core.Returns(defFn) {
+			lk, ok := core.Unconv(ret.Results[0]).(*ssa.Lookup)
+			if !ok || c.traceAccessor(lk.Index) != "DataType" {
+				continue
+			}
+			if gls, ok := core.TableGlobals(lk.X, nil); ok && len(gls) == 1 {
+				if t, ok := c.constIntMapGlobal(gls[0]); ok {
+					table = t
+				}
+			}
+		}
+	}
 	want := map[string]int64{"Data_File": 0o644, "Data_Directory": 0o755, "Data_HAMTShard": 0o755}
 	for name, perm := range want {
 		tv, ok := c.dataConst(name)
@@ -987,7 +949,7 @@ func (c *Ctx) checkPermissions() {
 		}
 		found = true
 		key := "data." + e.fn.Name() + "/mode-elision"
-		ok := core.GuardedBy(e.call.Block(), func(cond ssa.Value) (bool, bool) {
+		isModeCmp := func(cond ssa.Value) (bool, bool) {
 			bo, isBin := cond.(*ssa.BinOp)
 			if !isBin || (bo.Op != token.NEQ && bo.Op != token.EQL) {
 				return false, false
@@ -996,6 +958,50 @@ func (c *Ctx) checkPermissions() {
 				if c.traceAccessor(pair[0]) == "Mode" {
 					if call, ok := core.Unconv(pair[1]).(*ssa.Call); ok && call.Call.StaticCallee() == defFn {
 						return bo.Op == token.NEQ, true
+					}
+				}
+			}
+			return false, false
+		}
+		ok := core.GuardedBy(e.call.Block(), func(cond ssa.Value) (bool, bool) {
+			if want, rel := isModeCmp(cond); rel {
+				return want, true
+			}
+			// a predicate helper: `if modeDiffers(node) { … }` whose result can only be true through that comparison
+			if hc, isCall := cond.(*ssa.Call); isCall {
+				if h := hc.Call.StaticCallee(); h != nil && len(h.Blocks) > 0 {
+					if _, isRepo := c.P.PkgOf(h); isRepo && h.Signature.Results().Len() == 1 && isBasic(h.Signature.Results().At(0).Type(), types.Bool) {
+						ncmp, bad := 0, false
+						var leaves func(v ssa.Value, d int)
+						seen := map[ssa.Value]bool{}
+						leaves = func(v ssa.Value, d int) {
+							if seen[v] || d > 6 {
+								return
+							}
+							seen[v] = true
+							switch x := v.(type) {
+							case *ssa.Phi:
+								for _, ed := range x.Edges {
+									leaves(ed, d+1)
+								}
+							case *ssa.Const:
+								if x.Value == nil || x.Value.Kind() != constant.Bool || constant.BoolVal(x.Value) {
+									bad = true
+								}
+							default:
+								if want, rel := isModeCmp(v); rel && want {
+									ncmp++
+								} else {
+									bad = true
+								}
+							}
+						}
+						for _, ret := range core.Returns(h) {
+							leaves(core.ResolvedResults(ret)[0], 0)
+						}
+						if ncmp > 0 && !bad {
+							return true, true
+						}
 					}
 				}
 			}
@@ -1035,4 +1041,227 @@ func (c *Ctx) controlDeadLocal() {
 	}
 	dead := core.NeverAssignedLocals(pk, func(fd *ast.FuncDecl) bool { return fd.Name.Name == "CtlDeadLocal" })
 	c.R.Control("R9.7/never-assigned-local", len(dead) > 0)
+}
+
+// modeMaskOK resolves a qp.MapEntry(_, key, qp.Int(val)) of function fn: relevant when key can be "Mode" (a constant, or a
+// parameter bound to "Mode" at some call site); ok when on every such binding val is `… & 0xFFF`, masked either here or,
+// for a parameter, at the call sites. nmask counts the mask sites found.
+func (c *Ctx) modeMaskOK(fn *ssa.Function, key, val ssa.Value, masked bool, depth int) (relevant, ok bool, nmask int) {
+	if depth > 4 {
+		return true, false, 0
+	}
+	if !masked && val != nil {
+		if _, m, isMask := andMask(val); isMask {
+			if m != 0xFFF {
+				return true, false, 0
+			}
+			masked = true
+			nmask++
+		}
+	}
+	paramIdx := func(v ssa.Value) int {
+		p, isParam := core.Unconv(v).(*ssa.Parameter)
+		if !isParam {
+			return -1
+		}
+		for i, q := range fn.Params {
+			if q == p {
+				return i
+			}
+		}
+		return -1
+	}
+	keyIdx := -1
+	if k, isC := key.(*ssa.Const); isC {
+		if k.Value == nil || k.Value.Kind() != constant.String || constant.StringVal(k.Value) != "Mode" {
+			return false, true, 0
+		}
+		if masked {
+			return true, true, nmask
+		}
+	} else if keyIdx = paramIdx(key); keyIdx < 0 {
+		return false, true, 0 // computed key: not a Mode setter by construction of the schema constants
+	}
+	valIdx := -1
+	if !masked {
+		if valIdx = paramIdx(val); valIdx < 0 && keyIdx < 0 {
+			return true, false, nmask
+		}
+	}
+	// resolve at the call sites
+	ok = true
+	ncs := 0
+	for _, e := range c.G.In[fn] {
+		cs, isCall := e.Site.(*ssa.Call)
+		if !isCall || cs.Call.StaticCallee() != fn {
+			continue
+		}
+		k2 := key
+		if keyIdx >= 0 {
+			k2 = cs.Call.Args[keyIdx]
+		}
+		var v2 ssa.Value
+		m2 := masked
+		if !masked {
+			if valIdx >= 0 {
+				v2 = cs.Call.Args[valIdx]
+			} else {
+				// value computed here without a mask: wrong for every binding in which the key is Mode
+				v2 = nil
+			}
+		}
+		rel, good, nm := c.modeMaskOK(e.Caller, k2, v2, m2, depth+1)
+		if !rel {
+			continue
+		}
+		ncs++
+		relevant = true
+		nmask += nm
+		if !good || (!m2 && v2 == nil) {
+			ok = false
+		}
+	}
+	if keyIdx < 0 {
+		relevant = true
+		if ncs == 0 {
+			ok = false
+		}
+	}
+	return relevant, ok, nmask
+}
+
+// constIntMapGlobal reads a package-level map[int]int whose only writes are the MapUpdates of its initialiser.
+func (c *Ctx) constIntMapGlobal(gl *ssa.Global) (map[int64]int64, bool) {
+	out := map[int64]int64{}
+	var mm *ssa.MakeMap
+	for _, fn := range c.P.RepoFuncs {
+		for _, b := range fn.Blocks {
+			for _, ins := range b.Instrs {
+				switch x := ins.(type) {
+				case *ssa.Store:
+					if x.Addr == ssa.Value(gl) {
+						m, isMake := x.Val.(*ssa.MakeMap)
+						if !isMake || fn.Name() != "init" || mm != nil {
+							return nil, false
+						}
+						mm = m
+					}
+				case *ssa.MapUpdate:
+					if u, isLoad := x.Map.(*ssa.UnOp); isLoad && u.X == ssa.Value(gl) {
+						return nil, false // written outside its initialiser
+					}
+				}
+			}
+		}
+	}
+	if mm == nil {
+		return nil, false
+	}
+	for _, ref := range *mm.Referrers() {
+		mu, isUpd := ref.(*ssa.MapUpdate)
+		if !isUpd {
+			continue
+		}
+		k, ok1 := core.ConstInt(mu.Key)
+		v, ok2 := core.ConstInt(mu.Value)
+		if !ok1 || !ok2 {
+			return nil, false
+		}
+		out[k] = v
+	}
+	return out, len(out) > 0
+}
+
+// writeAlts lists, per path of encoder function fn, the protowire terms it appends under which Exists() conditions. Calls
+// of repository helpers of package data that themselves append (an optional-field helper taking the tag number and the
+// accessor as parameters) are expanded at the call site with their parameters bound to the arguments.
+func (c *Ctx) writeAlts(fn *ssa.Function, depth int) ([]sizeAlt, bool) {
+	var got []sizeAlt
+	ok := true
+	complete := core.EnumPaths(fn, 2, 100000, func(path []*ssa.BasicBlock) {
+		cur := []sizeAlt{{conds: map[string]bool{}}}
+		addTerm := func(t string) {
+			for i := range cur {
+				cur[i].terms = append(append([]string{}, cur[i].terms...), t)
+			}
+		}
+		for i, b := range path {
+			for _, ins := range b.Instrs {
+				call, isCall := ins.(*ssa.Call)
+				if !isCall {
+					continue
+				}
+				nm := pwName(call)
+				if nm == "AppendTag" {
+					numV := call.Call.Args[1]
+					if p, isParam := numV.(*ssa.Parameter); isParam {
+						if bv, bound := c.accBind[p]; bound {
+							numV = bv
+						}
+					}
+					if k, isK := core.ConstInt(numV); isK {
+						addTerm(fmt.Sprintf("tag:%d", k))
+					} else {
+						ok = false
+					}
+					continue
+				} else if t, isApp := appendTerm[nm]; isApp {
+					addTerm(t)
+					continue
+				}
+				h := call.Call.StaticCallee()
+				if h == nil || depth > 2 || len(h.Blocks) == 0 || !c.appendsWire(h) {
+					continue
+				}
+				if rel, isRepo := c.P.PkgOf(h); !isRepo || rel != "data" {
+					continue
+				}
+				var sub []sizeAlt
+				subOK := false
+				c.withAccBind(h, call, func() { sub, subOK = c.writeAlts(h, depth+1) })
+				if !subOK {
+					ok = false
+					continue
+				}
+				var next []sizeAlt
+				for _, a := range cur {
+					for _, sb := range sub {
+						if m, mok := mergeAlt(a, sb); mok {
+							next = append(next, m)
+						}
+					}
+				}
+				cur = next
+			}
+			if i+1 < len(path) {
+				if cond, taken, isBr := core.BranchTaken(b, path[i+1]); isBr {
+					neg := false
+					if u, isNot := cond.(*ssa.UnOp); isNot && u.Op == token.NOT {
+						cond, neg = u.X, true
+					}
+					if nmc := c.existsCond(cond); nmc != "" {
+						var next []sizeAlt
+						for _, a := range cur {
+							if m, mok := mergeAlt(a, sizeAlt{conds: map[string]bool{nmc: taken != neg}}); mok {
+								next = append(next, m)
+							}
+						}
+						cur = next
+					}
+				}
+			}
+		}
+		got = append(got, cur...)
+	})
+	return got, ok && complete
+}
+
+// appendsWire: h (or a helper it calls) contains a protowire.Append* call.
+func (c *Ctx) appendsWire(h *ssa.Function) bool {
+	for _, ci := range core.CallsIn(h) {
+		if call, ok := ci.(*ssa.Call); ok && strings.HasPrefix(pwName(call), "Append") {
+			return true
+		}
+	}
+	return false
 }
